@@ -209,6 +209,12 @@ def _near_pairs(ctx):
     from harness import corr_textvers as CT
     per = 900 if ctx.thorough else 110
     flags = [dict(), dict(simplify=True), dict(validate=True), dict(simplify=True, validate=True)]
+    # words a changed table or pattern newly admits (a new suffix, a new qualifier, a new character): glued to the
+    # version with the usual separators
+    words = common.new_table_words()
+    extra = [sep + w + tail for w in words for sep in ("_", "-", ".", "") for tail in ("", "1", "20200101")] if words else []
+    if extra:
+        ctx.stream("near-pairs")["new_table_words"] = words
     for scheme, rc in sorted(VR.RANGE_CLASS_BY_SCHEMES.items()):
         gname = CT.gen_name_of(rc.version_class)
         if gname not in S.GEN:
@@ -222,7 +228,10 @@ def _near_pairs(ctx):
                 b = vs[-1]
                 j = rng.randint(0, len(b))
                 ch = rng.choice(PUNCT)
-                b = b[:j] + ch + (b[j + 1:] if rng.random() < 0.5 else b[j:])
+                if extra and rng.random() < 0.6:
+                    ch = rng.choice(extra)
+                    j = len(b) if rng.random() < 0.7 else j
+                b = b[:j] + ch + (b[j + 1:] if rng.random() < 0.5 and len(ch) == 1 else b[j:])
                 vs.append(b)
             if rng.random() < 0.3:
                 vs.append(a)          # the same text again
